@@ -76,6 +76,30 @@ fn real_main() {
             std::process::exit(2);
         }
     }
+    // stages added after the seventh round of seeded changes (histories, reuse, unusual shapes)
+    {
+        use props_round7 as r7;
+        let p = prop.as_str();
+        if ["C01", "C02"].contains(&p) { r7::interleaved_pairs(&mut ctx, p); }
+        if p == "C02" { r7::declared_payload_hash(&mut ctx, p); }
+        if ["C02", "C15"].contains(&p) { r7::absolute_form_authorities(&mut ctx, p); }
+        if ["C02", "C09"].contains(&p) { r7::long_paths(&mut ctx, p); }
+        if ["C03", "C04", "C14"].contains(&p) { r7::authenticator_histories(&mut ctx, p); }
+        if p == "C04" { r7::slow_wallclock_provider(&mut ctx, p); }
+        if ["C09", "C10", "C18"].contains(&p) { r7::shared_component_histories(&mut ctx, p); }
+        if p == "C11" { r7::special_header_names(&mut ctx, p); }
+        if ["C12", "C15"].contains(&p) { r7::resubmit_returned_parts(&mut ctx, p); }
+        if ["C12", "C19"].contains(&p) { r7::folded_repeats_many_names(&mut ctx, p); }
+        if ["C13", "C14"].contains(&p) { r7::provider_error_kinds(&mut ctx, p); }
+        if p == "C16" { r7::long_timestamp_pairs(&mut ctx); }
+        if p == "C17" { props_runtime::c17_levels_and_histories(&mut ctx); }
+        if p == "C05" { r7::mirrored_query_params(&mut ctx, p); }
+        if ["C16", "C19", "C13"].contains(&p) { r7::malformed_amz_date_beside_date(&mut ctx, p); }
+        if ["C08", "C16"].contains(&p) { r7::tokens_and_damaged_dates(&mut ctx, p); }
+        if ["C13", "C19"].contains(&p) { r7::many_auth_items(&mut ctx, p); }
+        if ["C15", "C08"].contains(&p) { r7::too_long_then_folded(&mut ctx, p); }
+        if ["C01", "C15"].contains(&p) { r7::declared_payload_hash(&mut ctx, p); }
+    }
     // properties stated about the validation as a whole also need every function on the validation path to
     // correspond to its model
     if ["C01", "C02", "C03", "C04", "C05", "C08", "C11", "C12", "C13", "C14", "C15", "C17", "C18", "C19"].contains(&prop.as_str()) {
